@@ -93,6 +93,13 @@ CachedOffsets(strategy, offs) ==
       [] strategy = "all"  -> {offs[j] : j \in DOMAIN offs}
 Populate(strategy, sec, offs) == [o \in CachedOffsets(strategy, offs) |-> AbbrevsAt(sec, o)]
 CacheGet(cache, sec, o) == IF o \in DOMAIN cache THEN cache[o] ELSE AbbrevsAt(sec, o)
+(* The cache object persists between calls.  As coded, `populate` assigns a *)
+(* freshly collected map ("any existing cache entries are discarded"): what *)
+(* an earlier populate / set left - possibly parsed from another            *)
+(* .debug_abbrev - never survives.  `set` inserts Ok(table) at one offset.   *)
+EmptyCache == <<>>
+PopulateOn(cache, strategy, sec, offs) == Populate(strategy, sec, offs)
+CacheSet(cache, o, decls) == [x \in DOMAIN cache \cup {o} |-> IF x = o THEN [ok |-> TRUE, decls |-> decls] ELSE cache[x]]
 
 (*------------------------- units and entries ----------------------------*)
 HeaderLen == 11
